@@ -99,7 +99,7 @@ def assignments(draw, spec, nonneg=frozenset()):
         if k & 1:
             ts.append(["User", f"u{i % 3}"])
         if k == 2:
-            ts.append(["Axis", draw(st.integers(0, 3)), f"ax{i % 2}"])
+            ts.append(["Axis", draw(st.integers(-3, 3)), f"ax{i % 2}"])
         if k == 4 or k == 7:
             ts.append(["Redn", f"r{i % 2}"])
         if i in nonneg and draw(st.booleans()):
